@@ -120,6 +120,29 @@ def h_assembled(env, slmode, nspin, mode, version, layout):
                     env.zero("vnldf_zero_below_cut_s%d_f%d" % (s, i), vn[s, i, 0])
 
 
+def h_kernel_cut(env, mode, nspin, baseline, version=1):
+    """the real MappedDFTKernel.__call__ with a *real* native baseline (multiplicative) over the whole non-negative domain, both
+    sides of a symbolic positive rhocut: every division / root that survives into the returned energy density and derivative has
+    its argument inside the domain.  A value that is non-finite at vanishing density and is then *overwritten* by the cutoff mask is
+    not an output; one that is *multiplied* by a 0/1 mask still is (0 * (1/0) keeps its division in the term).  libxc itself is a
+    total function by contract (it thresholds the density); the spin-scaling code around it (get_sigma / get_dsigma) is real."""
+    from . import c04
+    from .. import stubs
+    xe, bl = env.m.xc_evaluator, env.m.baselines
+    X = env.arr("X", (nspin, c04.N0, 1), "nonneg", hi="1e12")
+    rc = env.par("rhocut", "pos", lo="1/1000000000000", hi="1/1000")
+    env.eps_real()
+    lda, gga, mgga = stubs.make_abs_libxc(env)
+    mk = xe.MappedDFTKernel(c04._evals(env, mode, 1), c04._featlist(env), mode, bl.BASELINE_CODES[baseline], None)
+    with c04._Patch(bl, get_libxc_lda_baseline=lda, get_libxc_gga_baseline=gga, get_libxc_mgga_baseline=mgga):
+        ok, out = env.attempt("call_returns", lambda: mk(X.copy(), rhocut=rc))
+    if not ok:
+        return
+    res, dres = out
+    env.finite("energy_density_finite", [res[0]])
+    env.finite("derivative_finite", [dres[s_, i, 0] for s_ in range(nspin) for i in range(c04.N0)])
+
+
 def tasks(tier):
     td = sym_mods().td
     out = []
@@ -132,6 +155,11 @@ def tasks(tier):
     for name in ["ZERO", "ONE", "LDA_X", "NLDA_X_DAMP", "GGA_X_PBE", "GGA_X_CHACHIYO", "RHO"]:
         for nspin in (1, 2):
             out.append(Task("baseline/%s/nspin%d" % (name, nspin), h_baseline, dict(name=name, nspin=nspin)))
+    kc = [("NPOL", 2, "GGA_C_PBE"), ("POL", 2, "GGA_C_PBE"), ("SEP", 2, "GGA_X_PBE"), ("NPOL", 1, "GGA_C_PBE"), ("SEP", 1, "LDA_X"), ("NPOL", 2, "GGA_X_CHACHIYO")]
+    if tier == "thorough":
+        kc += [(m, ns, b) for m in ("SEP", "NPOL", "POL") for ns in (1, 2) for b in ("LDA_X", "NLDA_X_DAMP", "GGA_X_PBE", "GGA_X_CHACHIYO", "GGA_C_PBE", "RHO") if (m, ns, b) not in kc]
+    for m, ns, b in kc:
+        out.append(Task("kernel_cut/%s/nspin%d/%s" % (m, ns, b), h_kernel_cut, dict(mode=m, nspin=ns, baseline=b), mods="numint", max_paths=512))
     cfgs = [("npa", 1, "SEP", 1, "sl+nldf"), ("npa", 2, "SEP", 1, "sl"), ("nst", 2, "NPOL", 1, "sl+nldf"), ("npa", 1, "SEP", 2, "sl")]
     if tier == "thorough":
         cfgs += [("np", 2, "SEP", 1, "sl+nldf"), ("ns", 1, "NPOL", 1, "sl"), ("npa", 2, "POL", 1, "sl"), ("npa", 2, "SEP", 2, "sl+sdmx"), ("nst", 1, "NPOL", 2, "sl")]
@@ -149,7 +177,7 @@ def prepare(tier):
 META = dict(
     explanation="symbolic execution over the whole non-negative domain; for every division/root/log node in the output terms z3 "
                 "decides whether its argument can leave the domain under the path condition; below-cutoff zeros decided as term identities",
-    functions=["ciderpress/dft/transform_data.py: all map classes", "ciderpress/dft/feat_normalizer.py: FeatNormalizerList + 3 normaliser classes",
+    functions=['ciderpress/dft/xc_evaluator.py: MappedDFTKernel.__call__ with the real native baselines incl. ciderpress/dft/baselines.py get_sigma, get_dsigma, get_gga_c (kernel_cut/*; libxc total by contract)', "ciderpress/dft/transform_data.py: all map classes", "ciderpress/dft/feat_normalizer.py: FeatNormalizerList + 3 normaliser classes",
                "ciderpress/dft/settings.py: get_s2, ds2, get_alpha, dalpha, dtauw, get_cider_exponent(_gga)", "ciderpress/dft/baselines.py: native baselines",
                "ciderpress/pyscf/numint.py: eval_xc_cider (assembled, whole domain)"],
     bounds=dict(domain="rho in [0, 1e12] incl. 0 and both sides of 1e-10/rhocut/ALPHA_TOL, sigma in [0, 1e24], tau in [0, 1e18], EPS = 1e-16", sample_points=1,
